@@ -86,6 +86,7 @@ func c14ManyTags(res *Result) {
 func runC14(cases string, res *Result) {
 	c14ManyTags(res)
 	c14ExactCapacities(res)
+	c14HeldSerialisedForms(res)
 	readCases(cases, func(c Case) {
 		if _, has := c["src"]; has {
 			src := c.hexs("src")
@@ -269,6 +270,42 @@ func c14ExactCapacities(res *Result) {
 						Expected: clip(want), Observed: clip(got), Detail: fmt.Sprintf("%d units of `{{- a -}} ` and %d bytes of literal text, parsed after the pools were emptied: the dashes do not trim (or the text is not what was appended)", n, pad)})
 					return
 				}
+			}
+		}
+	}
+}
+
+// c14HeldSerialisedForms: the serialised form of a template of any size (below and above 64 KiB, 1 MiB) stays what it
+// was while other templates are serialised: it is loaded afterwards and must render as its source does.
+func c14HeldSerialisedForms(res *Result) {
+	const body = "[{{ a }}|{% if c %}y{% endif %}|{# n #}end]"
+	for _, pad := range []int{0, 1000, 5000, 60 << 10, 70 << 10, 200 << 10, 1100 << 10} {
+		for round := 0; round < 3; round++ {
+			src := strings.Repeat("p", pad) + body
+			a := twig.New()
+			if a.RegisterString("big", src) != nil || a.RegisterString("other", "other "+strings.Repeat("o", pad/2)+" {{ a }}") != nil {
+				continue
+			}
+			res.Evaluations++
+			res.Hist["stream:held-serialised-forms"]++
+			want, _ := a.Render("big", map[string]interface{}{"a": "A", "c": true})
+			tb, _ := a.Load("big")
+			to, _ := a.Load("other")
+			blob, err := tb.SaveCompiled()
+			if err != nil {
+				continue
+			}
+			to.SaveCompiled()
+			to.SaveCompiled()
+			b := twig.New()
+			got, lerr := "", b.LoadFromCompiledData(blob)
+			if lerr == nil {
+				got, lerr = b.Render("big", map[string]interface{}{"a": "A", "c": true})
+			}
+			if lerr != nil || got != want {
+				res.add(Finding{Kind: "oracle", Where: "held-serialised-forms", Case: Case{"stream": "held-serialised-forms", "padding": pad}, Expected: clip(want), Observed: clip(got) + fmt.Sprintf(" (err=%v)", lerr),
+					Detail: fmt.Sprintf("a template with %d bytes of literal text was serialised, another template was serialised twice, then the first form was loaded", pad)})
+				return
 			}
 		}
 	}
